@@ -336,3 +336,31 @@ Proof.
       pose proof (partial_tail_no_panic (S (length r)) (dropN n r)).
       destruct (partial_tail (S (length r)) (dropN n r)) as [[y rr]| |]; try discriminate. congruence.
 Qed.
+
+(* memory: the reader's buffer never holds more than 8192 octets, whatever lengths the packet declares *)
+Lemma br_fill_bound ff : forall s, lenN (bbuf s) <= BUFSZ -> lenN (bbuf (br_fill ff s)) <= BUFSZ.
+Proof.
+  assert (Hnil : lenN (@nil byte) <= BUFSZ) by (cbn; unfold BUFSZ; lia).
+  induction ff as [|ff IH]; intros s Hb; cbn [br_fill]; destruct (bph s); try exact Hb.
+  - destruct (negb (is_nilb (bbuf s))); [exact Hb|].
+    destruct (0 <? N.min BUFSZ (avail (blim s) (bsrc s))); [cbn [bbuf]; rewrite lenN_takeN; lia|].
+    destruct (blim s) as [n| |n].
+    + destruct (0 <? n); exact Hnil.
+    + exact Hnil.
+    + exact Hnil.
+  - destruct (negb (is_nilb (bbuf s))); [exact Hb|].
+    destruct (0 <? N.min BUFSZ (avail (blim s) (bsrc s))); [cbn [bbuf]; rewrite lenN_takeN; lia|].
+    destruct (blim s) as [n| |n].
+    + destruct (0 <? n); exact Hnil.
+    + exact Hnil.
+    + destruct (dec_new_len (bsrc s)) as [[[m|m|] r]| |]; try exact Hnil; apply IH; exact Hnil.
+Qed.
+
+Theorem br_take_bound n s : lenN (bbuf s) <= BUFSZ -> lenN (bbuf (fst (br_take n s))) <= BUFSZ.
+Proof.
+  intros Hb. unfold br_take.
+  set (s1 := match bph s, bbuf s with BBody, _ :: _ => s | _, _ => br_fill (S (length (bsrc s))) s end).
+  assert (H1 : lenN (bbuf s1) <= BUFSZ).
+  { unfold s1. destruct (bph s); try (apply br_fill_bound; exact Hb). destruct (bbuf s) eqn:Eb; [apply br_fill_bound; rewrite Eb; cbn; unfold BUFSZ; lia|]. rewrite <- Eb in Hb. exact Hb. }
+  destruct (bph s1); cbn [fst bbuf]; try exact H1. rewrite lenN_dropN. lia.
+Qed.
